@@ -127,6 +127,19 @@ def check(case):
             elif rn != r0:
                 out.append((f"C12.{w}.path-none-differs", ""))
             digests.append(sha(d0))
+            # output is a function of the model alone: after an in-place edit the same writer object/class must
+            # produce what it produces for an independently built model with that edit (no identity-keyed memo)
+            if not item.get("foreign"):
+                import copy
+                edited = copy.deepcopy(item["model"])
+                edited["root"]["name"] = edited["root"]["name"] + "Zz"
+                if edited["root"]["name"] not in build.names(item["model"]):
+                    fm.root.name = edited["root"]["name"]
+                    got = lib(lambda: cls(None, fm).transform())
+                    want = lib(lambda: cls(None, build.build(edited)).transform())
+                    if isinstance(got, Raised) != isinstance(want, Raised) or (
+                            not isinstance(got, Raised) and got != want):
+                        out.append((f"C12.{w}.in-place-edit-not-reflected", "root renamed in place"))
         batch_path = sc.path("batch.json")
         with open(batch_path, "w", encoding="utf-8") as fh:
             json.dump({"items": case["items"], "read_back": False}, fh)
